@@ -387,7 +387,12 @@ def run(ck, m):
     ck.expect(clr is not None, "kitty: _clear_frame's clear(z_index=...) not recognised")
     if clr is not None:
         from tiv.astutil import conds as _conds
-        okz = len(zst) == 1 and not _conds(zst[0]) and norm(zst[0].value) == norm(kw(clr, "z_index"))
+        from tiv.absdom import EvUnk as _EvU, ev as _evz
+        try:
+            same_z = len(zst) == 1 and _evz(zst[0].value, {}) == _evz(kw(clr, "z_index"), {})       # (-(1 << 31) == -(2 ** 31): compared as integers)
+        except _EvU:
+            same_z = len(zst) == 1 and norm(zst[0].value) == norm(kw(clr, "z_index"))
+        okz = len(zst) == 1 and not _conds(zst[0]) and same_z
         ck.ob("R5", zst[0] if zst else kd, okz, f"animation frames must always be drawn on the z-index `_clear_frame` deletes ({norm(kw(clr, 'z_index'))}): `kwargs['z_index'] = <that>` unconditionally; "
               f"found {[short(s_, 50) for s_ in zst] or 'no plain store'} - with another z-index the previous frames are never removed on kitty <= 0.25.0", stmt="kitty: animation z-index == cleared z-index")
     # every frame is drawn over the same cells: the iterator's cache must hold unpadded frames (shared with C08/C09)
